@@ -43,6 +43,9 @@ type Opts struct {
 	DataOnly bool
 	// NoClosedness skips the Allows probes.
 	NoClosedness bool
+	// FieldOpts, if set, replaces the field selection options of struct dumps
+	// (e.g. regular fields + definitions for the `cue eval` profile).
+	FieldOpts []cue.Option
 }
 
 var DefaultProbes = []string{
@@ -143,7 +146,7 @@ func (c *Canoner) dump(sb *strings.Builder, v cue.Value, depth int) {
 	}
 	// Unresolved disjunction: the set of disjuncts with their default marks,
 	// taken from the evaluated value (never re-evaluated from conjuncts).
-	if vx := v.Core().V; vx != nil && !c.o.TakeDefaults {
+	if vx := v.Core().V; vx != nil {
 		if d, ok := vx.DerefValue().BaseValue.(*adt.Disjunction); ok && len(d.Values) > 1 {
 			// Disjuncts subsumed by another disjunct (that is at least as
 			// "default") do not change the set of values nor the default:
@@ -152,6 +155,11 @@ func (c *Canoner) dump(sb *strings.Builder, v cue.Value, depth int) {
 			vals := make([]cue.Value, len(d.Values))
 			for i, dv := range d.Values {
 				vals[i] = c.ctx.Encode(dv)
+			}
+			subOpts := []cue.Option{cue.Raw()}
+			if c.o.DataOnly || c.o.NoClosedness {
+				// closedness is not part of this projection
+				subOpts = append(subOpts, cue.Schema())
 			}
 			drop := make([]bool, len(vals))
 			for i := range vals {
@@ -163,9 +171,9 @@ func (c *Canoner) dump(sb *strings.Builder, v cue.Value, depth int) {
 					if iDef && !jDef {
 						continue
 					}
-					if vals[j].Subsume(vals[i], cue.Raw()) == nil {
+					if vals[j].Subsume(vals[i], subOpts...) == nil {
 						// equal values: keep the lower index only
-						if vals[i].Subsume(vals[j], cue.Raw()) == nil && iDef == jDef && i < j {
+						if vals[i].Subsume(vals[j], subOpts...) == nil && iDef == jDef && i < j {
 							continue
 						}
 						drop[i] = true
@@ -284,6 +292,9 @@ func (c *Canoner) dumpStruct(sb *strings.Builder, v cue.Value, depth int) {
 	if c.o.DataOnly {
 		opts = []cue.Option{}
 	}
+	if c.o.FieldOpts != nil {
+		opts = c.o.FieldOpts
+	}
 	it, err := v.Fields(opts...)
 	if err != nil {
 		sb.WriteString("⊥error")
@@ -298,6 +309,11 @@ func (c *Canoner) dumpStruct(sb *strings.Builder, v cue.Value, depth int) {
 			s2.WriteString("]:")
 			c.dump(&s2, it.Value(), depth-1)
 			pats = append(pats, "["+s2.String())
+			continue
+		}
+		if sel.String() == "_#def" {
+			// The exporter's encoding of a closed value: {_#def, _#def: {...}}.
+			// The reserved hidden field is an artefact, not user data.
 			continue
 		}
 		s2.WriteString(sel.String())
